@@ -4,7 +4,8 @@ import os, subprocess, sys
 HERE = os.path.dirname(os.path.abspath(__file__))
 VERIF = os.path.dirname(HERE)
 subprocess.call([sys.executable, os.path.join(HERE, "gen_tables.py")])
-if os.path.exists(os.path.join(HERE, "gen_statics.py")):
-    subprocess.call([sys.executable, os.path.join(HERE, "gen_statics.py")])
+for tool in ("gen_statics.py", "gen_kernels.py"):
+    if os.path.exists(os.path.join(HERE, tool)):
+        subprocess.call([sys.executable, os.path.join(HERE, tool)])
 rc = subprocess.call(["lake", "build", "stdrv", "StVerif"], cwd=os.path.join(VERIF, "lean"))
 sys.exit(rc)
